@@ -18,11 +18,11 @@ ID = "C07"
 CASES = {"quick": 5000, "thorough": 50000}
 FLOOR = {"quick": 3500, "thorough": 35000}
 FLOOR_COUNTERS = {
-    "quick": {"staged_fits_with_a_refused_warm_start": 300, "numpy_scalar_parameters": 800, "configured_not_by_constructor": 2000, "non_default_containers": 2000, "integer_typed_inputs": 300, "picks_judged": 12000, "stale_score_picks": 3000, "residual_checks": 3000, "relation_fits": 2000, "estimators_with_a_past": 1000, "small_unit_cases": 220},
-    "thorough": {"staged_fits_with_a_refused_warm_start": 3500, "numpy_scalar_parameters": 9000, "configured_not_by_constructor": 20000, "non_default_containers": 20000, "integer_typed_inputs": 3000, "picks_judged": 90000, "stale_score_picks": 10000, "residual_checks": 15000, "relation_fits": 10000, "estimators_with_a_past": 10000, "small_unit_cases": 2200},
+    "quick": {"block_diagonal_tables_with_blocks_of_more_than_20_items": 400, "staged_fits_with_a_refused_warm_start": 300, "numpy_scalar_parameters": 800, "configured_not_by_constructor": 2000, "non_default_containers": 2000, "integer_typed_inputs": 300, "picks_judged": 12000, "stale_score_picks": 3000, "residual_checks": 3000, "relation_fits": 2000, "estimators_with_a_past": 1000, "small_unit_cases": 220},
+    "thorough": {"block_diagonal_tables_with_blocks_of_more_than_20_items": 4000, "staged_fits_with_a_refused_warm_start": 3500, "numpy_scalar_parameters": 9000, "configured_not_by_constructor": 20000, "non_default_containers": 20000, "integer_typed_inputs": 3000, "picks_judged": 90000, "stale_score_picks": 10000, "residual_checks": 15000, "relation_fits": 10000, "estimators_with_a_past": 10000, "small_unit_cases": 2200},
 }
 RULE = (
-    "case = (CUR | PCov-CUR) x (feature | sample), matrix family with rank above the request, k in {1,2,3}, mixing in "
+    "case = (CUR | PCov-CUR) x (feature | sample), matrix family with rank above the request (1 in 8: block-diagonal tables, every block above 20 items, mostly mixing=1), k in {1,2,3}, mixing in "
     "{0,.3,.5,1}, recompute_every in {0,1,2,3}, tolerance, 1-D y; each pick is judged against pi recomputed by the oracle "
     "from the picks made up to the most recent refresh; relations sample<->feature (transpose) and PCov-CUR(mixing=1)==CUR. "
     "non-trivial = >= 2 judged picks; distinct by hash of spec+data."
@@ -58,6 +58,18 @@ def _matrix(rng, n, m, kind):
         small[int(rng.integers(m))] = False
         A[:, small] *= 10.0 ** -float(rng.uniform(3, 7))
         return A
+    if kind == "blocks":
+        # two groups of samples described by disjoint groups of features (two species with their own descriptors):
+        # X^T X and X X^T are block diagonal, every block larger than the 20 Lanczos vectors an iterative eigen-solver
+        # keeps by default; the first block carries a strong rank-one part, so the leading direction changes block
+        # once that part has been selected away (n, m are ignored)
+        na, nb, ma, mb = (int(v) for v in rng.integers(21, 29, size=4))
+        A = np.zeros((na + nb, ma + mb))
+        A[:na, :ma] = rng.normal(size=(na, ma)) + float(rng.uniform(2, 4)) * np.outer(rng.normal(size=na), rng.normal(size=ma)) / np.sqrt(ma)
+        A[na:, ma:] = float(rng.uniform(1.0, 1.4)) * rng.normal(size=(nb, mb))
+        if rng.random() < 0.5:  # the groups need not come first / last
+            A = A[rng.permutation(na + nb)][:, rng.permutation(ma + mb)]
+        return A
     if kind == "lowrank_hi":
         r = max(2, min(n, m) - int(rng.integers(0, 3)))
         return rng.normal(size=(n, r)) @ rng.normal(size=(r, m))
@@ -70,7 +82,10 @@ def gen(rng, tier, index):
     hi = 14 if tier == "quick" else 26
     n, m = int(rng.integers(4, hi)), int(rng.integers(4, hi))
     kind = gens.pick(rng, KINDS)
+    if index % 16 in (2, 3):
+        kind = "blocks"
     X = _matrix(rng, n, m, kind)
+    n, m = X.shape
     unit = 1.0
     if rng.random() < 0.25 or (kind == "copies" and rng.random() < 0.5):
         unit = float(2.0 ** int(rng.integers(-24, 14))) if kind != "copies" else float(2.0 ** int(rng.integers(8, 15)))
@@ -86,11 +101,13 @@ def gen(rng, tier, index):
         kw["tolerance"] = float(gens.pick(rng, (1e-10, 1e-8)))
     y = None
     if cls == "PCovCUR":
-        kw["mixing"] = float(gens.pick(rng, (0.0, 0.3, 0.5, 0.5, 1.0)))
+        kw["mixing"] = float(gens.pick(rng, (0.0, 0.3, 0.5, 0.5, 1.0) if kind != "blocks" else (1.0, 1.0, 1.0, 0.5, 0.0)))
         y = gens.target(rng, X, gens.pick(rng, ("linear", "noise", "nonlinear")), 1)
     elif rng.random() < 0.2:
         y = gens.target(rng, X, "noise", 1)
     kw["n_to_select"] = int(rng.integers(1, max(2, min(N, rank - 1)) + 1))
+    if kind == "blocks":
+        kw["n_to_select"] = int(rng.integers(3, 9))
     past = None
     if rng.random() < 0.3:  # the estimator was fitted before: other data of the same shape, another request
         past = {"X": rng.normal(size=X.shape) * unit, "y": None if y is None else rng.normal(size=len(X)), "n": int(rng.integers(1, max(2, min(N, rank - 1)) + 1))}
@@ -231,6 +248,8 @@ def run(case, j):
         j.note("integer_typed_inputs")
     if spec.get("npscalars"):
         j.note("numpy_scalar_parameters")
+    if case["kind"] == "blocks":
+        j.note("block_diagonal_tables_with_blocks_of_more_than_20_items")
     axis = sel.axis_of(spec)
     kw = spec["kw"]
     j.tag(f"{spec['dir']}:{spec['cls']}", f"data:{case['kind']}", f"re:{kw['recompute_every']}", f"k:{kw['k']}", f"mixing:{kw.get('mixing')}")
